@@ -217,7 +217,8 @@ package floatingip
 //@   ensures [C05:multi-synced-on-success] result1 == nil ==> synced(ci)
 //@   ensures [C01:multi-frame] allEntriesSame() && ciFieldsSame(ci)
 //@   ensures [C08:multi-one-per-range] result1 == nil && len(ipranges) > 0 ==> len(result0) == len(ipranges)
-//@   ensures [C08,C06,C09,C01:multi-ith-in-ith-range-free-routable] result1 == nil && len(ipranges) > 0 ==> forall i int :: 0 <= i && i < len(ipranges) ==> (let s = ipstr(result0[i]) in old(inRanges(ipranges[i], s)) && old(eligible(ci, s, sub)) && s in ci.allocatedFIPs && !(s in ci.unallocatedFIPs) && attrApplied(ci.allocatedFIPs[s], key, attr))
+//@   ensures [C08:multi-none-requested-allocates-one] result1 == nil && len(ipranges) == 0 ==> exists k string :: k in ci.allocatedFIPs && attrApplied(ci.allocatedFIPs[k], key, attr)
+//@   ensures [C08,C06,C09,C01:multi-ith-in-ith-range-free-routable] result1 == nil && len(ipranges) > 0 ==> forall i int {ipranges[i]} {result0[i]} :: 0 <= i && i < len(ipranges) ==> (let s = ipstr(result0[i]) in old(inRanges(ipranges[i], s)) && old(eligible(ci, s, sub)) && s in ci.allocatedFIPs && !(s in ci.unallocatedFIPs) && attrApplied(ci.allocatedFIPs[s], key, attr))
 //@   ensures [C08:multi-distinct] result1 == nil && len(ipranges) > 0 ==> forall i int, j int :: 0 <= i && i < j && j < len(ipranges) ==> ipstr(result0[i]) != ipstr(result0[j])
 //@   ensures [C08,C01:multi-others-untouched] result1 == nil && len(ipranges) > 0 ==> forall k string :: !(exists i int :: 0 <= i && i < len(ipranges) && ipstr(result0[i]) == k) ==> ((k in ci.allocatedFIPs) == old(k in ci.allocatedFIPs)) && ((k in ci.unallocatedFIPs) == old(k in ci.unallocatedFIPs)) && ci.allocatedFIPs[k] == old(ci.allocatedFIPs[k]) && ci.unallocatedFIPs[k] == old(ci.unallocatedFIPs[k])
 //@   ensures [C08,C05:multi-failure-leaves-tables] result1 != nil ==> tablesSame(ci)
@@ -439,6 +440,10 @@ package floatingip
 //@   ensures [C01:multi-frame] allEntriesSame() && ciFieldsSame(ci)
 //@   ensures [C08,C05:multi-failure-leaves-tables] result1 != nil ==> tablesSame(ci)
 //@   ensures [C04:multi-store-only-adds] forall k string :: old(StoreDom[k]) ==> storeSameAt(k)
+//@   ensures [C08:multi-one-per-range] result1 == nil && len(ipranges) > 0 ==> len(result0) == len(ipranges)
+//@   ensures [C08:multi-none-requested-allocates-one] result1 == nil && len(ipranges) == 0 ==> exists k string :: k in ci.allocatedFIPs && attrApplied(ci.allocatedFIPs[k], key, attr)
+//@   ensures [C08,C06,C09,C01:multi-ith-in-ith-range-free-routable] result1 == nil && len(ipranges) > 0 ==> forall i int {ipranges[i]} {result0[i]} :: 0 <= i && i < len(ipranges) ==> (let s = ipstr(result0[i]) in old(inRanges(ipranges[i], s)) && old(eligible(ci, s, sub)) && s in ci.allocatedFIPs && !(s in ci.unallocatedFIPs) && attrApplied(ci.allocatedFIPs[s], key, attr))
+//@   ensures [C08,C01:multi-others-untouched] result1 == nil && len(ipranges) > 0 ==> forall k string :: !(exists i int :: 0 <= i && i < len(ipranges) && ipstr(result0[i]) == k) ==> ((k in ci.allocatedFIPs) == old(k in ci.allocatedFIPs)) && ((k in ci.unallocatedFIPs) == old(k in ci.unallocatedFIPs)) && ci.allocatedFIPs[k] == old(ci.allocatedFIPs[k]) && ci.unallocatedFIPs[k] == old(ci.unallocatedFIPs[k])
 //@   modifies map(ci.allocatedFIPs), map(ci.unallocatedFIPs), fresh FloatingIP.*, StoreDom, StoreKey, StorePolicy, StoreNode, StoreUid, faults, fresh elemsof(byte), fresh elemsof(string), fresh elemsof(net.IP), fresh elemsof(*FloatingIP), fresh mapsof(map[string]sets.Empty)
 
 // ---- NodeSubnetsByIPRanges (filter side of C06): every offered node subnet can serve EVERY requested range ----
